@@ -44,4 +44,47 @@ theorem gen_selection_by_number_only (a b a' b' : Req)
   unfold inbound_selection_function
   rw [hk.1, hk.2, hl.1, hl.2, hv.1, hv.2]
 
+/-- the regenerated `retain` fold (front to back, accumulating the retained elements and the `keep` flag) against the
+model's structural `retainLoop`, for any accumulator -/
+theorem gen_retain_fold {α : Type} (sel : α → α → R) (v : α) (buf acc : List α) (k : Bool) :
+    buf.foldl (retainStep sel v) (acc, k)
+    = (acc ++ (retainLoop (fun a b => toSel (sel a b)) v buf).1, k && (retainLoop (fun a b => toSel (sel a b)) v buf).2) := by
+  induction buf generalizing acc k with
+  | nil => simp [retainLoop]
+  | cons x xs ih =>
+    simp only [List.foldl_cons, retainLoop, retainStep]
+    cases h : sel x v <;> simp [toSel, ih]
+
+/-- regenerated `Sender::send` = `sendGen` (for every filter and selection function) -/
+theorem gen_send_eq {α : Type} (filter : α → Bool) (sel : α → α → R) (buf : List α) (v : α) :
+    EraVerif.Gen.QueueFns.send filter sel buf v = sendGen filter (fun a b => toSel (sel a b)) buf v := by
+  unfold EraVerif.Gen.QueueFns.send sendGen
+  by_cases hf : filter v = true
+  · have h := gen_retain_fold sel v buf [] true
+    simp only [List.nil_append, Bool.true_and] at h
+    simp [hf, h]
+  · have : filter v = false := by simpa using hf
+    simp [this]
+
+/-- hence the bft channel's `send`, regenerated end to end (filter, selection, pruning loop) = the model's `send` -/
+theorem gen_bft_send_eq (buf : List Msg) (m : Msg) :
+    (EraVerif.Gen.QueueFns.send inbound_filter_predicate inbound_selection_function (buf.map toReq) (toReq m))
+      = (EraVerif.Model.Mpsc.send buf m).map toReq := by
+  rw [gen_send_eq]
+  unfold EraVerif.Model.Mpsc.send sendGen
+  have hloop : ∀ (l : List Msg),
+      retainLoop (fun a b => toSel (inbound_selection_function a b)) (toReq m) (l.map toReq)
+        = ((retainLoop bftSel m l).1.map toReq, (retainLoop bftSel m l).2) := by
+    intro l
+    induction l with
+    | nil => simp [retainLoop]
+    | cons x xs ih =>
+      simp only [List.map_cons, retainLoop, ih, gen_selection_eq]
+      cases bftSel x m <;> simp
+  by_cases hf : m.sigOk = true
+  · simp [gen_filter_eq, bftFilter, hf, hloop]
+    split <;> simp
+  · have : m.sigOk = false := by simpa using hf
+    simp [gen_filter_eq, bftFilter, this]
+
 end EraVerif.Props.C16gen
